@@ -279,7 +279,8 @@ pub fn run() {{
             return {}, {}, None
         return vlib.run_case_crate(f"c12_{i}", shards[i], prelude=PRELUDE, features=("try_from",),
                                    target_dir=os.path.join(vlib.BUILD, f"target-c12-{i}"))
-    with cf.ThreadPoolExecutor(max_workers=nsh) as ex:
+    # (at most six compilers at a time: twelve 3-4 GB rustc processes next to other work have been killed for memory)
+    with cf.ThreadPoolExecutor(max_workers=min(nsh, 6)) as ex:
         results = list(ex.map(build, range(nsh)))
     nontrivial = 0
     for i, (obs, failed, br) in enumerate(results):
